@@ -285,6 +285,7 @@ func initTopicP2P(t *Topic, sreg *ClientComMessage) error {
 			t.perUser[uid] = perUserData{
 				// Adapter has already swapped the state, public, defaultAccess, lastSeen values.
 				public:    subs[i].GetPublic(),
+				trusted:   subs[i].GetTrusted(),
 				lastSeen:  subs[i].GetLastSeen(),
 				lastUA:    subs[i].GetUserAgent(),
 				topicName: types.ParseUid(subs[(i+1)%2].User).UserId(),
